@@ -163,7 +163,17 @@ fn check_input(t: &[u8], wlen: usize, rep: &mut Report) {
             (Err(e), None) => problems.push((name, format!("verdict:rejects-well-formed:{}", kind_name(e.kind)), json!({}))),
             (Err(e), Some((off, k))) => {
                 rep.evals(3);
-                if e.kind != *k {
+                // end of the first ill-formed sequence: an error reported at or beyond it means the engine let that sequence pass
+                let seq_end = match t[v] {
+                    0xc0..=0xdf => v + 2,
+                    0xe0..=0xef => v + 3,
+                    0xf0..=0xf7 => v + 4,
+                    _ => v + 1,
+                }
+                .min(t.len());
+                if e.offset >= seq_end && e.offset > *off {
+                    problems.push((name, format!("verdict:accepts-ill-formed:{}", kind_name(*k)), json!({"later_error": format!("{e:?}")})));
+                } else if e.kind != *k {
                     problems.push((name, format!("kind:expected-{}-got-{}", kind_name(*k), kind_name(e.kind)), json!({})));
                 } else if e.offset != *off {
                     let rel = if e.offset < v { "before-valid-prefix-end" } else if e.offset < *off { "early" } else { "late" };
